@@ -3,6 +3,7 @@ package multiplex
 import (
 	"errors"
 	"fmt"
+	"github.com/cbeuw/Cloak/internal/verifhook"
 	"net"
 	"sync"
 	"sync/atomic"
@@ -148,6 +149,7 @@ func (sesh *Session) OpenStream() (*Stream, error) {
 	if sesh.IsClosed() {
 		return nil, ErrBrokenSession
 	}
+	verifhook.Point("sesh.OpenStream.checked")
 	id := atomic.AddUint32(&sesh.nextStreamID, 1) - 1
 	// Because atomic.AddUint32 returns the value after incrementation
 	if sesh.Singleplex && id > 1 {
